@@ -1,14 +1,19 @@
 import N0Verif.Proofs.ComparePerm
+import N0Verif.Proofs.CompareKeyVals
 /-!
 # C08 — keyed unordered compare ignores order and classifies every record exactly once
 
-Model: `N0Verif/Model/Compare.lean` (the code with fix patches C07-a, C08-a, C09-a applied — in
-particular the composite key is handed down unchanged to the keyed lists nested inside records).
+Model: `N0Verif/Model/Compare.lean` (the code with fix patches C07-a, C08-a, C09-a, C07-b, C07-c, C09-b, C10-a and
+C08-b, C10-c applied — the composite key is handed down unchanged to the keyed lists nested inside records, and the
+key of a record is the JSON text of the dictionary of its key fields: `fieldsKey (recFields …)`).
 `NoPathOpts cfg`: no `compare_only`, `exclude_xpaths`, `transform`; the composite key `cfg.ck` is
 arbitrary (single field, several fields, given as `str` or tuple).  `keyP cfg` is the composite key of
 a list element as a pure function; `PermTree v v'`: `v'` is `v` with the lists inside it permuted at
 every depth; `UniqueKeys cfg v`: in every list inside `v` the composite keys are pairwise different, the
 elements are not themselves lists and the key fields of records are scalars.
+`UniqueVals cfg v`: the same stated on the VALUES of the key fields (`itemId`), with `KeyInjIn` — the key text tells
+apart the items of one list that differ in their key-field values — as the bridge (fix C08-b makes it true of the
+implementation: 7 / '7', None / 'None', a value containing ';field=' no longer share a key).
 -/
 namespace N0.C08
 open N0 N0.Compare
@@ -27,6 +32,33 @@ theorem C08_perm_invariant_lines (cfg : Cfg) (h : NoPathOpts cfg) (hd : cfg.dire
     okD (dE (compareTop cfg a b)) = okD (dE (compareTop cfg a' b')) :=
   perm_invariant_lines cfg h hd ha hb hua hub
 
+/-- **C08 (permutation invariance, uniqueness stated on VALUES).**  `UniqueVals`: in every list the items have
+pairwise different identities — the `(field, value)` pairs of the key fields of a record, the value of any other
+item; nothing is said about texts.  `KeyInjIn`: within each list the key text (JSON text of the key fields, fix
+C08-b) is injective on those identities — true of `json.dumps` on Python values, carried as a hypothesis because
+floats are opaque lexemes in the model (cf. `KeyFaithfulOn` in C07); `C08_key_type_separation` proves the part of
+it that the defect violated. -/
+theorem C08_perm_invariant_values (cfg : Cfg) (h : NoPathOpts cfg) (hd : cfg.direct = false) {a a' b b' : Val}
+    (ha : PermTree a a') (hb : PermTree b b') (hua : UniqueVals cfg a) (hub : UniqueVals cfg b)
+    (hia : KeyInjIn cfg a) (hib : KeyInjIn cfg b) :
+    verdict (compareTop cfg a b) = verdict (compareTop cfg a' b') :=
+  ckv_perm_invariant cfg h hd ha hb hua hub hia hib
+
+/-- `UniqueVals` + `KeyInjIn` give the `UniqueKeys` of the other theorems -/
+theorem C08_unique_values_unique_keys (cfg : Cfg) (v : Val) (hu : UniqueVals cfg v) (hi : KeyInjIn cfg v) :
+    UniqueKeys cfg v :=
+  ckv_uniqueKeys cfg v hu hi
+
+/-- **the key keeps types apart** (proved, no hypothesis on the values): two records keyed by one field whose values
+are leaves of different type (`None`, `bool`, `int`, `str`; floats are opaque lexemes) never have the same key —
+`{'id': 7}` / `{'id': '7'}`, `{'id': None}` / `{'id': 'None'}`, `True` / `'True'`, `1` / `True` -/
+theorem C08_key_type_separation (cfg : Cfg) (f : Str) (hck : cfg.ck.pats = [f]) (c c' : Cls)
+    (kvs kvs' : List (Str × Val)) (v w : Val)
+    (hl : Val.lookup f kvs = some v) (hl' : Val.lookup f kvs' = some w)
+    (hv : headClass v < 4) (hw : headClass w < 4) (hne : headClass v ≠ headClass w) :
+    keyP cfg (.dict c kvs) ≠ keyP cfg (.dict c' kvs') :=
+  ckv_type_sep cfg f hck c c' kvs kvs' v w hl hl' hv hw hne
+
 /-- **C08 (classification).** One keyed level with unique keys, every option record: the result is
 the results of the matched pairs (each left element whose key occurs on the right, compared with the
 element carrying that key — `matchedRes`), followed by one self-unique entry for each left element whose
@@ -35,7 +67,7 @@ left (`keyedTail` of exactly those elements, each with its own index).  Every re
 exactly once. -/
 theorem C08_classification (cfg : Cfg) (hd : cfg.direct = false) (site : Site) (p : Path)
     (hx : excluded cfg p = false) (c c' : Cls) (xs ys : List Val) (ks ko : List Str)
-    (hks : keysOf cfg p xs = .ok ks) (hko : keysOf cfg p ys = .ok ko) (hn : ks.Nodup) (hno : ko.Nodup) :
+    (hks : keysOf cfg p 0 xs = .ok ks) (hko : keysOf cfg p 0 ys = .ok ko) (hn : ks.Nodup) (hno : ko.Nodup) :
     sub cfg site p (.list c xs) (.list c' ys) =
       seqR (matchedRes cfg p (.list .n0 xs) (.list .n0 ys) (mkEntries 0 ko ys) 0 ks xs)
         (.ok (keyedTail p
@@ -87,5 +119,31 @@ example : UniqueKeys exCfg exA := by
 example : (compareTop exCfg exA exA').map (·.diffs) = .ok 0 := by decide
 example : (compareTop exCfg exA' exB).map (fun r => (r.diffs, r.notEqual.map (·.path)))
     = .ok (1, [[.key ['r'], .idx2 1 0, .key ['t'], .idx2 0 1, .key ['v']]]) := by decide
+
+/-! The inputs of the repaired defect C08-b are inside the theorems: `[{'id': 7, 'v': 1}, {'id': '7', 'v': 2}]` against
+itself reversed (before the fix: four differences, the same list against itself none), `{'id': 7}` against
+`{'id': '7'}` (two unique records, not one "not equal" leaf), and a value that imitates the old separator. -/
+def r7i : Val := .dict .n0 [(idK, .int 7), (['v'], .int 1)]
+def r7s : Val := .dict .n0 [(idK, .str ['7']), (['v'], .int 2)]
+theorem C08_int_str_key_fixed :
+    (compareTop exCfg (.list .n0 [r7i, r7s]) (.list .n0 [r7s, r7i])).map (·.diffs) = .ok 0 ∧
+    (compareTop exCfg (.list .n0 [r7i]) (.list .n0 [.dict .n0 [(idK, .str ['7']), (['v'], .int 1)]])).map
+      (fun r => (r.diffs, r.selfUnique.length, r.otherUnique.length, r.notEqual.length)) = .ok (2, 1, 1, 0) := by
+  decide
+example : keyP exCfg r7i ≠ keyP exCfg r7s :=
+  C08_key_type_separation exCfg idK rfl _ _ _ _ (.int 7) (.str ['7']) rfl rfl (by decide) (by decide) (by decide)
+example : UniqueVals exCfg (.list .n0 [r7i, r7s]) := by
+  simp [UniqueVals, UniqueValsL, UniqueValsK, itemOk, itemId, recFields, setField, r7i, r7s, exCfg, Cfg.default, PatArg.pats, idK, Val.lookup, Val.isScalar]
+example : KeyInjIn exCfg (.list .n0 [r7i, r7s]) := by
+  simp only [KeyInjIn, KeyInjInL, KeyInjInK, r7i, r7s, List.mem_cons, List.not_mem_nil, or_false, and_true]
+  intro x hx y hy
+  rcases hx with rfl | rfl <;> rcases hy with rfl | rfl <;> decide
+/-- `{'a': '1;b=2'}` and `{'a': '1', 'b': '2'}` under `composite_key=('a', 'b')`: different keys (unique on each side) -/
+theorem C08_separator_fixed :
+    (compareTop { exCfg with ck := .many [['a'], ['b']] }
+      (.list .n0 [.dict .n0 [(['a'], .str ['1', ';', 'b', '=', '2'])]])
+      (.list .n0 [.dict .n0 [(['a'], .str ['1']), (['b'], .str ['2'])]])).map
+      (fun r => (r.diffs, r.selfUnique.length, r.otherUnique.length, r.notEqual.length)) = .ok (2, 1, 1, 0) := by
+  decide
 
 end N0.C08
